@@ -4,6 +4,7 @@ package naga
 
 import (
 	"github.com/gogpu/naga/internal/zzclike"
+	"github.com/gogpu/naga/internal/zztpl"
 	zz "github.com/gogpu/naga/internal/zzverif"
 	"github.com/gogpu/naga/msl"
 )
@@ -91,4 +92,14 @@ func ZZ_C04_tv_integer_binary() {
 
 func ZZ_C04_tv_workgroup() {
 	zzRunTemplateMSL(zzTemplatesW[zz.Choice("template", len(zzTemplatesW))])
+}
+
+// Thorough tier: every template followed by each probe template in one entry point.
+func ZZ_C04_tv_template_pairs() {
+	if !zz.Thorough() {
+		zz.Reach("end")
+		return
+	}
+	pairs := zztpl.Pairs()
+	zzRunTemplateMSL(pairs[zz.Choice("pair", len(pairs))])
 }
